@@ -321,6 +321,13 @@ theorem stage_succeeds (t : RawTree) (hT : TreeWF t) (hpop : Populated t) (lk : 
       (∀ e ∈ out.reported, ReportedEntry t c e.1 e.2) :=
   stage_ok t (treeOK_of_wf t hT) hpop lk R Q m c h
 
+/-- the hypothesis `TreeWF` of the theorems above is what a validated taxonomy
+is: accepted by `validate_taxonomy_tree` (model `RawTree.validate`), level
+names distinct, node names of each level distinct (they are dict keys). -/
+theorem validated_tree_is_wf (t : RawTree) (hv : t.validate = .ok ()) (hN : t.hierarchy.Nodup)
+    (hne : t.hierarchy ≠ []) (hK : ∀ l ∈ t.hierarchy, (t.nodesAt l).Nodup) : TreeWF t :=
+  treeWF_of_validate t hv hN hne hK
+
 /-! ## non-vacuity: a concrete run meets the hypotheses
 
 levels 0 (class), 1 (subclass), 2 (cluster); class 10 has subclasses 20, 21;
@@ -336,6 +343,7 @@ def t0 : RawTree :=
 def lk0 : Lookup := [(some (1, 20), [4]), (none, [1, 2, 3]), (some (0, 10), [2, 9]), (some (0, 11), [7])]
 
 example : TreeWF t0 := ⟨by decide, by decide, by decide, by decide⟩
+example : t0.validate = .ok () := by rfl
 example : KeysNodup lk0 := by unfold KeysNodup; decide
 example : Consulted t0 (some (1, 20)) := ⟨[30, 31], rfl, by decide⟩
 example : Consulted t0 none := ⟨[10, 11], rfl, by decide⟩
